@@ -92,6 +92,140 @@ const DESTROYS: [Destroy; 9] = [Destroy::Drop, Destroy::IntoChild, Destroy::Into
 
 type Case = (String, Box<dyn Fn() + Send + Sync>);
 
+// ---- raw locks that can be killed: an unlock that (after really unlocking) panics on request ----
+thread_local! {
+	static UNLOCK_FAULT: std::cell::Cell<bool> = const { std::cell::Cell::new(false) };
+}
+pub struct KRawMutex(std::sync::atomic::AtomicBool);
+unsafe impl lock_api::RawMutex for KRawMutex {
+	#[allow(clippy::declare_interior_mutable_const)]
+	const INIT: Self = KRawMutex(std::sync::atomic::AtomicBool::new(false));
+	type GuardMarker = lock_api::GuardSend;
+	fn lock(&self) {
+		while !self.try_lock() {
+			std::thread::yield_now();
+		}
+	}
+	fn try_lock(&self) -> bool {
+		self.0.compare_exchange(false, true, std::sync::atomic::Ordering::Acquire, std::sync::atomic::Ordering::Relaxed).is_ok()
+	}
+	unsafe fn unlock(&self) {
+		self.0.store(false, std::sync::atomic::Ordering::Release);
+		if UNLOCK_FAULT.with(|f| f.replace(false)) {
+			std::panic::resume_unwind(Box::new("faulty unlock"));
+		}
+	}
+}
+pub struct KRawRw(std::sync::atomic::AtomicIsize);
+unsafe impl lock_api::RawRwLock for KRawRw {
+	#[allow(clippy::declare_interior_mutable_const)]
+	const INIT: Self = KRawRw(std::sync::atomic::AtomicIsize::new(0));
+	type GuardMarker = lock_api::GuardSend;
+	fn lock_shared(&self) {
+		while !self.try_lock_shared() {
+			std::thread::yield_now();
+		}
+	}
+	fn try_lock_shared(&self) -> bool {
+		let v = self.0.load(std::sync::atomic::Ordering::Relaxed);
+		v >= 0 && self.0.compare_exchange(v, v + 1, std::sync::atomic::Ordering::Acquire, std::sync::atomic::Ordering::Relaxed).is_ok()
+	}
+	unsafe fn unlock_shared(&self) {
+		self.0.fetch_sub(1, std::sync::atomic::Ordering::Release);
+		if UNLOCK_FAULT.with(|f| f.replace(false)) {
+			std::panic::resume_unwind(Box::new("faulty unlock"));
+		}
+	}
+	fn lock_exclusive(&self) {
+		while !self.try_lock_exclusive() {
+			std::thread::yield_now();
+		}
+	}
+	fn try_lock_exclusive(&self) -> bool {
+		self.0.compare_exchange(0, -1, std::sync::atomic::Ordering::Acquire, std::sync::atomic::Ordering::Relaxed).is_ok()
+	}
+	unsafe fn unlock_exclusive(&self) {
+		self.0.store(0, std::sync::atomic::Ordering::Release);
+		if UNLOCK_FAULT.with(|f| f.replace(false)) {
+			std::panic::resume_unwind(Box::new("faulty unlock"));
+		}
+	}
+}
+type KM = happylock::mutex::Mutex<Token, KRawMutex>;
+type KR = happylock::rwlock::RwLock<Token, KRawRw>;
+/// n locks, the one at position `k` killed (its raw unlock panicked once; the raw lock itself is free again)
+fn kms(n: usize, k: usize) -> Vec<KM> {
+	let v: Vec<KM> = (0..n).map(|_| KM::new(Token::new())).collect();
+	if k < n {
+		UNLOCK_FAULT.with(|f| f.set(true));
+		let r = catch_unwind(AssertUnwindSafe(|| v[k].scoped_try_lock(key(), |_| ())));
+		assert!(r.is_err(), "the faulty unlock panics");
+	}
+	v
+}
+fn krs(n: usize, k: usize) -> Vec<KR> {
+	let v: Vec<KR> = (0..n).map(|_| KR::new(Token::new())).collect();
+	if k < n {
+		UNLOCK_FAULT.with(|f| f.set(true));
+		let r = catch_unwind(AssertUnwindSafe(|| v[k].scoped_try_write(key(), |_| ())));
+		assert!(r.is_err(), "the faulty unlock panics");
+	}
+	v
+}
+trait IntoTok {
+	fn tok(self) -> Token;
+}
+impl IntoTok for KM {
+	fn tok(self) -> Token {
+		self.into_inner()
+	}
+}
+impl IntoTok for KR {
+	fn tok(self) -> Token {
+		self.into_inner()
+	}
+}
+
+/// Constructors and destructors over members that were killed beforehand: a killed lock is still a value
+/// that was placed in the collection, so it is dropped once / handed back like any other.
+macro_rules! killed_cases {
+	($out:ident, $coll:ident, $cname:expr, $mk:ident, $lname:expr) => {
+		for n in 1..=3usize {
+			for k in 0..n {
+				for ctor in ["new", "try_new", "from", "from_iter", "extend-or-new"] {
+					for d in [Destroy::Drop, Destroy::IntoChild, Destroy::IntoInner, Destroy::IntoIterFull] {
+						$out.push((format!("{}<Vec<{}>>[{}] with member {} killed: {} -> {:?}", $cname, $lname, n, k, ctor, d), Box::new(move || {
+							let first = COUNTS.with(|c| c.borrow().len());
+							let v = $mk(n, k);
+							// a constructor may refuse a killed lock by panicking (the property does not say it cannot); the
+							// values must then still be dropped exactly once, which the counters decide
+							let Ok(c) = catch_unwind(AssertUnwindSafe(move || -> $coll<Vec<_>> {
+								match ctor {
+									"new" | "extend-or-new" => $coll::new(v),
+									"try_new" => killed_cases!(@try $coll, v),
+									"from" => $coll::from(v),
+									_ => v.into_iter().collect(),
+								}
+							})) else {
+								return;
+							};
+							match d {
+								Destroy::Drop => drop(c),
+								Destroy::IntoChild => check_ids(&c.into_child().into_iter().map(|l| l.tok().id).collect::<Vec<_>>(), first, "into_child"),
+								Destroy::IntoInner => check_ids(&c.into_inner().iter().map(|t| t.id).collect::<Vec<_>>(), first, "into_inner"),
+								_ => check_ids(&c.into_iter().map(|l| l.tok().id).collect::<Vec<_>>(), first, "into_iter"),
+							}
+						})));
+					}
+				}
+			}
+		}
+	};
+	(@try OwnedLockCollection, $v:ident) => { OwnedLockCollection::new($v) };
+	(@try RetryingLockCollection, $v:ident) => { RetryingLockCollection::try_new($v).expect("distinct") };
+	(@try BoxedLockCollection, $v:ident) => { BoxedLockCollection::try_new($v).expect("distinct") };
+}
+
 macro_rules! vec_kind_cases {
 	($out:ident, $K:ident, $kname:expr, $n:expr, $lock:ident, $mk:ident, $Leaf:ty, $gm:tt) => {
 		for ctor in ["new", "from", "from_iter", "try_new"] {
@@ -305,6 +439,47 @@ pub fn cases() -> Vec<Case> {
 		vec_kind_cases!(out, BoxedLockCollection, "Boxed", n, read, rs, R, nogm);
 		vec_kind_cases!(out, RetryingLockCollection, "Retrying", n, read, rs, R, gm);
 	}
+	killed_cases!(out, OwnedLockCollection, "Owned", kms, "Mutex");
+	killed_cases!(out, BoxedLockCollection, "Boxed", kms, "Mutex");
+	killed_cases!(out, RetryingLockCollection, "Retrying", kms, "Mutex");
+	killed_cases!(out, OwnedLockCollection, "Owned", krs, "RwLock");
+	killed_cases!(out, BoxedLockCollection, "Boxed", krs, "RwLock");
+	killed_cases!(out, RetryingLockCollection, "Retrying", krs, "RwLock");
+	// other containers and wrappers around a killed lock
+	out.push(("tuple / array / Poisonable / nested / borrowing collections over killed locks".to_string(), Box::new(|| {
+		let first = COUNTS.with(|c| c.borrow().len());
+		let mut m = kms(2, 0);
+		let mut r = krs(2, 1);
+		let t = (m.pop().unwrap(), r.pop().unwrap(), [m.pop().unwrap()], Poisonable::new(r.pop().unwrap()));
+		// token ids: m[0]=first (killed), m[1]=first+1, r[0]=first+2, r[1]=first+3 (killed)
+		let c = BoxedLockCollection::new(t);
+		let (a, b, [x], p) = c.into_inner();
+		expect([a.id, b.id, x.id] == [first + 1, first + 3, first], "Boxed<(Mutex, RwLock, [Mutex;1], Poisonable)> into_inner positions");
+		expect(p.map_or_else(|e| e.into_inner().id, |t| t.id) == first + 2, "Poisonable position");
+		let first = COUNTS.with(|c| c.borrow().len());
+		let data = OwnedLockCollection::new(kms(2, 1));
+		let loose = kms(2, 0);
+		{
+			let a = RefLockCollection::new(&data);
+			let b = BoxedLockCollection::new_ref(&data);
+			let c = RetryingLockCollection::new_ref(&data);
+			let v: Vec<&KM> = loose.iter().collect();
+			let d = RefLockCollection::try_new(&v);
+			expect(d.is_some(), "Ref::try_new over distinct killed locks");
+			let e = BoxedLockCollection::try_new(v.clone());
+			expect(e.is_some(), "Boxed::try_new over distinct killed locks");
+			let f = RetryingLockCollection::try_new(v.clone());
+			expect(f.is_some(), "Retrying::try_new over distinct killed locks");
+			drop((a, b, c, d, e, f));
+		}
+		let counts_now: u32 = COUNTS.with(|c| c.borrow()[first..].iter().sum());
+		expect(counts_now == 0, "dropping borrowing collections over killed locks drops no value");
+		drop(loose);
+		let o = OwnedLockCollection::new((data, Poisonable::new(RetryingLockCollection::new(krs(1, 0)))));
+		let (inner, p) = o.into_inner();
+		check_ids(&inner.iter().map(|t| t.id).collect::<Vec<_>>(), first, "nested Owned<Vec> inside Owned tuple");
+		expect(p.map_or_else(|e| e.into_inner()[0].id, |t| t[0].id) == first + 4, "nested Poisonable<Retrying> position");
+	})));
 	array_cases!(out, 0);
 	array_cases!(out, 1);
 	array_cases!(out, 2);
@@ -801,7 +976,7 @@ pub fn check(tier: &str) -> ! {
 		let mut current: Option<(usize, String)> = None;
 		let mut hung = false;
 		loop {
-			match rx.recv_timeout(std::time::Duration::from_secs(8)) {
+			match rx.recv_timeout(std::time::Duration::from_secs(25)) {
 				Ok(l) => {
 					if let Some(n) = l.strip_prefix("CASES ") {
 						total_cases = n.trim().parse().unwrap_or(0);
@@ -830,7 +1005,7 @@ pub fn check(tier: &str) -> ! {
 		last_status = format!("{:?}", st);
 		match current {
 			Some((i, name)) => {
-				dead_cases.push((name, if hung { "no progress for 8 s (hang); killed".to_string() } else { format!("the child process died ({})", last_status) }));
+				dead_cases.push((name, if hung { "no progress for 25 s (hang); killed".to_string() } else { format!("the child process died ({})", last_status) }));
 				text.push_str("ABANDONED\n");
 				start = i + 1;
 				if dead_cases.len() >= 6 {
